@@ -76,6 +76,25 @@ def decodeAux : Nat → Bytes → Bytes → Bytes × Bool
 /-- `(octets decoded before any error, err == nil)`. -/
 def b64Decode (s : Bytes) : Bytes × Bool := decodeAux (s.length + 1) s []
 
+/-! ## RFC 4648 §4 encoding (the reference the decoder is measured against) -/
+
+/-- the base64 alphabet. -/
+def encChar (v : Nat) : UInt8 :=
+  if v < 26 then UInt8.ofNat (65 + v)
+  else if v < 52 then UInt8.ofNat (97 + (v - 26))
+  else if v < 62 then UInt8.ofNat (48 + (v - 52))
+  else if v = 62 then 43
+  else 47
+
+/-- RFC 4648 §4: 24-bit groups as four characters, `=` padding at the end. -/
+def b64Encode : Bytes → Bytes
+  | [] => []
+  | [x] => [encChar (x.toNat / 4), encChar (x.toNat % 4 * 16), 61, 61]
+  | [x, y] => [encChar (x.toNat / 4), encChar (x.toNat % 4 * 16 + y.toNat / 16), encChar (y.toNat % 16 * 4), 61]
+  | x :: y :: z :: t =>
+    [encChar (x.toNat / 4), encChar (x.toNat % 4 * 16 + y.toNat / 16), encChar (y.toNat % 16 * 4 + z.toNat / 64),
+      encChar (z.toNat % 64)] ++ b64Encode t
+
 /-! ## RFC 4034 Appendix B (the reference) -/
 
 /-- `ac += (i & 1) ? key[i] : key[i] << 8` from offset `i`. -/
